@@ -44,7 +44,8 @@ type ReplayDoc struct {
 	Command    string            `json:"command"`
 }
 
-var replayMu sync.Mutex // one go test at a time per process keeps the build cache sane
+var nativeSem = make(chan struct{}, 4)
+var _ sync.Mutex
 
 func replayCex(prop string, h *HarnessRun, cx *Counterexample) {
 	doc := &ReplayDoc{Property: prop, Harness: cx.Harness, Package: h.Spec.Pkg, Extra: h.Spec.Extra, Obligation: cx.Obligation, Kind: cx.Kind,
@@ -106,8 +107,8 @@ func cmdReplay(args []string) int {
 
 // runNative builds and runs the harness natively with the assignment.
 func runNative(doc *ReplayDoc) (string, string) {
-	replayMu.Lock()
-	defer replayMu.Unlock()
+	nativeSem <- struct{}{}
+	defer func() { <-nativeSem }()
 	tmp, err := os.MkdirTemp("", "vcheck-replay-")
 	if err != nil {
 		return "no-replay", err.Error()
